@@ -13,6 +13,9 @@
 (*        Injective    two different names never get the same token        *)
 (*                     (stage 3: second string t, |s|,|t| <= PairLen)      *)
 (*        UnescapeLaw  UnEscape(RefEscape(s)) = s  (string escaping)       *)
+(*        AltDecodes   other legal spellings (all bytes escaped in lower    *)
+(*                     case, backslash as \5C, bare label with a leading    *)
+(*                     digit) are read as the same name                    *)
 (*      AsImplemented = FALSE: the coder is LLVM's own printer             *)
 (*      (Literals!RefEncode) and everything holds.  AsImplemented = TRUE:  *)
 (*      the coder is internal/enc/enc.go as written (Literals!CodeEncode)  *)
@@ -21,10 +24,11 @@
 (*      20-digit names (a name read as an ID or as no token), the run-time *)
 (*      panic of MetadataName("").                                         *)
 (*  (G) emits one vector per case (EmitFile = "stdout"): kind, bytes and   *)
-(*      the reference token.  The harness (harness/props/c11) puts the     *)
-(*      token into a module text for every grammar position of that kind,  *)
-(*      lets llvm-as confirm the reading and compares the bytes the real   *)
-(*      parser delivers.                                                   *)
+(*      LLVM's canonical token and each alternative spelling.  The harness *)
+(*      (harness/props/c11) puts the spelling into a module text for every *)
+(*      grammar position of that kind, lets llvm-as | llvm-dis confirm the *)
+(*      reading (its output must show the canonical token) and compares    *)
+(*      the bytes the real parser delivers.                                *)
 (*                                                                         *)
 (* Variables: stage 0 -> kind; 1 -> s; 2 = case complete; 2 -> t (only     *)
 (* for |s| <= PairLen); 3 = pair complete.                                 *)
@@ -70,6 +74,13 @@ UnescapeLaw == stage = 2 => UnEscape(RefEscape(s)) = s
 \* LLVM's printer and the code's printer are both decoders' inverses where both are right: the
 \* code's token, when it is right, need not equal LLVM's (e.g. \5C versus \\)
 
-Vector == ToJson([kind |-> kind, bytes |-> s, tok |-> RefEncode(kind, s)])
-Emit == (stage = 2 /\ EmitFile = "stdout" /\ Permitted(kind, s)) => PrintT(Vector)
+\* every alternative spelling is read as the same name
+AltDecodes  == stage = 2 /\ Permitted(kind, s) /\ s # <<>>
+                 => \A a \in AltEncodings(kind, s) : DecodeToken(kind, a.tok) = NameTok(s)
+
+\* one vector per spelling: ref = LLVM's canonical spelling, tok = the spelling fed to the parser
+Vec(tag, tok) == ToJson([kind |-> kind, bytes |-> s, tag |-> tag, ref |-> RefEncode(kind, s), tok |-> tok])
+Emit == (stage = 2 /\ EmitFile = "stdout" /\ Permitted(kind, s) /\ s # <<>>) =>
+          /\ PrintT(Vec("reference", RefEncode(kind, s)))
+          /\ \A a \in AltEncodings(kind, s) : a.tok = RefEncode(kind, s) \/ PrintT(Vec(a.tag, a.tok))
 =============================================================================
